@@ -1,8 +1,8 @@
 ----------------------------- MODULE MC_DTCWT1 -----------------------------
 (* Bounded model: every (routine, rows, filter length, polarity) of the 1-D DTCWT building blocks. *)
-EXTENDS DTCWT1, Json
+EXTENDS DTCWT1Laws, Json
 
-CONSTANTS RSet, L1Set, QSet, Shard, NShards, Emit
+CONSTANTS RSet, L1Set, QSet, Shard, NShards, Emit, PRMaxR
 VARIABLES cfg
 vars == <<cfg>>
 NoCfg == [kind |-> "none", r |-> 0, L |-> 0, hp |-> FALSE]
@@ -28,6 +28,16 @@ ColdfiltOK == cfg.kind = "coldfilt" =>
 ColifiltOK == cfg.kind = "colifilt" =>
                   /\ SamePair(ImplColifilt(cfg.r, cfg.L, cfg.hp), RefColifilt(cfg.r, cfg.L, Pol(cfg.hp)))
                   /\ ImplColifilt(cfg.r, cfg.L, cfg.hp).a.no = 2 * cfg.r
+
+\* C06: the backward passes are the transposes under the table identities
+AdjointOK ==
+    /\ cfg.kind = "colfilter" => Level1SelfAdjoint(cfg.r, cfg.L)
+    /\ cfg.kind = "coldfilt" => DfiltIfiltAdjoint(cfg.r, cfg.L, cfg.hp)
+\* C04: exact integer perfect reconstruction on rational instances (every even offset of the lattice filter)
+PROK ==
+    /\ (cfg.kind = "colfilter" /\ cfg.L = 5 /\ cfg.r <= PRMaxR) => Level1PR(cfg.r)
+    /\ (cfg.kind = "coldfilt" /\ ~cfg.hp /\ cfg.r <= PRMaxR) =>
+          \A off \in {o \in 0 .. (cfg.L - 4) : o % 2 = 0} : QshiftPR(cfg.r, cfg.L, off)
 
 Record ==
     CASE cfg.kind = "colfilter" ->
